@@ -318,6 +318,11 @@ func (c *Ctx) callsTransitively(fn *ssa.Function, depth int, match func(*core.Ca
 // funcsDeep lists fn, the function literals defined in it, and — transitively, depth levels — the module's declared
 // functions they call statically (goroutine starts are not followed): the code that runs as part of a call of fn.
 func (c *Ctx) funcsDeep(fn *ssa.Function, depth int) []*ssa.Function {
+	return c.funcsDeepStop(fn, depth, nil)
+}
+
+// funcsDeepStop is funcsDeep that does not enter the functions for which stop returns true.
+func (c *Ctx) funcsDeepStop(fn *ssa.Function, depth int, stop func(*ssa.Function) bool) []*ssa.Function {
 	var out []*ssa.Function
 	seen := map[*ssa.Function]bool{}
 	var walk func(f *ssa.Function, d int)
@@ -337,7 +342,7 @@ func (c *Ctx) funcsDeep(fn *ssa.Function, depth int) []*ssa.Function {
 			if _, isGo := cl.Instr.(*ssa.Go); isGo {
 				continue
 			}
-			if g := cl.Static; g != nil && g.Pkg != nil && c.P.IsModPkg(g.Pkg.Pkg) && !c.P.IsGenerated(g) {
+			if g := cl.Static; g != nil && g.Pkg != nil && c.P.IsModPkg(g.Pkg.Pkg) && !c.P.IsGenerated(g) && (stop == nil || !stop(g)) {
 				walk(g, d-1)
 			}
 		}
@@ -364,4 +369,65 @@ func (c *Ctx) callsToDeep(fn *ssa.Function, depth int, objs ...*types.Func) []*c
 		}
 	}
 	return out
+}
+
+
+// callsToDeepStop is callsToDeep that does not look into the functions for which stop returns true.
+func (c *Ctx) callsToDeepStop(fn *ssa.Function, depth int, stop func(*ssa.Function) bool, objs ...*types.Func) []*core.Call {
+	var out []*core.Call
+	for _, f := range c.funcsDeepStop(fn, depth, stop) {
+		for _, cl := range core.CallsIn(f) {
+			if cl.Is(objs...) {
+				out = append(out, cl)
+			}
+		}
+	}
+	return out
+}
+
+
+// liftTo returns the instructions of root through which instr runs: instr itself if it is in root (or in a function
+// literal of root), else the static calls in root whose callee (transitively, depth 3) contains instr's function.
+func (c *Ctx) liftTo(root *ssa.Function, instr ssa.Instruction) []ssa.Instruction {
+	f := instr.Parent()
+	if f == root {
+		return []ssa.Instruction{instr}
+	}
+	var out []ssa.Instruction
+	for _, cl := range core.CallsIn(root) {
+		if _, isGo := cl.Instr.(*ssa.Go); isGo || cl.Static == nil {
+			continue
+		}
+		for _, g := range c.funcsDeep(cl.Static, 3) {
+			if g == f {
+				out = append(out, cl.Instr)
+				break
+			}
+		}
+	}
+	return out
+}
+
+// runsBefore: whenever b runs as part of a call of root, a has run before it in that call (dominance between the places of
+// root through which they run; inside one helper, dominance there).
+func (c *Ctx) runsBefore(root *ssa.Function, a, b ssa.Instruction) bool {
+	if a.Parent() == b.Parent() {
+		return a != b && core.Dominates(a, b)
+	}
+	as, bs := c.liftTo(root, a), c.liftTo(root, b)
+	if len(as) == 0 || len(bs) == 0 {
+		return false
+	}
+	for _, y := range bs {
+		ok := false
+		for _, x := range as {
+			if x != y && core.Dominates(x, y) {
+				ok = true
+			}
+		}
+		if !ok {
+			return false
+		}
+	}
+	return true
 }
